@@ -119,6 +119,15 @@ func (g *gen) execCall(fr *frame, cur *node, st *State, c *ssa.CallCommon, pos t
 			args = append(args, g.val(fr, a))
 		}
 	}
+	if fr.top && key != "" && instr != nil && len(g.fs.PreCalls) > 0 {
+		g.preCallAsserts(fr, cur, st, key, instr, pos)
+	}
+	if fr.top && key != "" {
+		if vfs, vargs, vsig, ok := g.callSiteOverride(fr, st, key, instr); ok {
+			g.used["assumed:"+vfs.Key+" (call-site contract for "+shortKey(key)+")"] = true
+			return g.applyContract(fr, cur, st, vfs, vsig, vargs, pos)
+		}
+	}
 	if fs == nil {
 		if matchPure(g.P.spec.PurePats, key) {
 			g.used["pure:"+key] = true
@@ -268,9 +277,40 @@ func (g *gen) lockOp(fr *frame, cur *node, st *State, op string, mv ssa.Value, p
 					cur.assume(a)
 				}
 				if sl, ok := f.Type().Underlying().(*types.Slice); ok {
-					if _, isS := isStruct(sl.Elem()); !isS {
+					if _, isS := isStruct(sl.Elem()); !isS && !g.cellsImmutable(sl.Elem()) {
+						// elements of a guarded slice may have been overwritten in place by other goroutines,
+						// unless in-place writes to such cells are excluded (immutable cells(T), checked at every store)
 						g.svFresh(st, cellMapName(sl.Elem()), "(Array Ref "+sortOf(sl.Elem())+")")
 					}
+				}
+			}
+			// guarded state of an object reached through an (immutable) pointer field: "f.ghost"
+			for gk, lf := range g.P.spec.Guarded {
+				if lf != ow.lockField || !strings.HasPrefix(gk, sk+".") {
+					continue
+				}
+				rest := strings.TrimPrefix(gk, sk+".")
+				parts := strings.Split(rest, ".")
+				if len(parts) != 2 {
+					continue
+				}
+				for i := 0; i < s.NumFields(); i++ {
+					f := s.Field(i)
+					if f.Name() != parts[0] {
+						continue
+					}
+					pt, ok := f.Type().Underlying().(*types.Pointer)
+					if !ok {
+						continue
+					}
+					tgt := app("select", g.svGet(st, fieldMapName(ow.structT, f.Name()), "(Array Ref Ref)"), ow.base)
+					name, srt, ok := g.fieldVar(pt.Elem(), parts[1])
+					if !ok {
+						g.errorf("guarded_by %s: unknown field %s", gk, parts[1])
+						continue
+					}
+					fv := g.c.fresh(name+".locked", arrayElemSort(srt))
+					g.svAssign(cur, st, name, srt, app("store", g.svGet(st, name, srt), tgt, fv))
 				}
 			}
 			for _, li := range g.P.spec.LockInvs[sk+"."+ow.lockField] {
@@ -284,6 +324,7 @@ func (g *gen) lockOp(fr *frame, cur *node, st *State, op string, mv ssa.Value, p
 			}
 		}
 		g.takeSnapshot(st, fmt.Sprintf("lock%d", site))
+		g.takeSnapshot(st, "lastlock")
 	case "unlock", "runlock":
 		want := "1"
 		if op == "runlock" {
@@ -314,6 +355,7 @@ func (g *gen) lockOp(fr *frame, cur *node, st *State, op string, mv ssa.Value, p
 			}
 		}
 		g.takeSnapshot(st, fmt.Sprintf("unlock%d", site))
+		g.takeSnapshot(st, "lastunlock")
 		g.svAssign(cur, st, "$held", hs, app("store", g.svGet(st, "$held", hs), m, "0"))
 	}
 	return cur
@@ -607,4 +649,132 @@ func sortedKeys(m map[string]bool) []string {
 	}
 	sort.Strings(ks)
 	return ks
+}
+
+func (g *gen) callOrdinal(fr *frame, key string, instr ssa.Instruction) int {
+	ord := 0
+	for _, b := range fr.fn.Blocks {
+		for _, in := range b.Instrs {
+			ci, ok := in.(ssa.CallInstruction)
+			if !ok || in == instr {
+				continue
+			}
+			k2 := ""
+			if ci.Common().IsInvoke() {
+				k2 = methodKey(ci.Common().Method)
+			} else if sc := ci.Common().StaticCallee(); sc != nil {
+				k2 = funcKey(sc)
+			}
+			if k2 == key && in.Pos() < instr.Pos() {
+				ord++
+			}
+		}
+	}
+	return ord
+}
+
+func (g *gen) preCallAsserts(fr *frame, cur *node, st *State, key string, instr ssa.Instruction, pos token.Pos) {
+	for _, pc := range g.fs.PreCalls {
+		if pc.Callee != key && pc.Callee != shortKey(key) {
+			continue
+		}
+		if g.callOrdinal(fr, key, instr) != pc.K {
+			continue
+		}
+		e := g.topEnv(st, &State{m: map[string]string{}}, nil)
+		for k, v := range g.localEnvAt(fr, instr.Block(), instrIndexOf(instr.Block(), instr), st) {
+			if _, bound := e.vars[k]; !bound {
+				e.vars[k] = v
+			}
+		}
+		t, err := e.trBool(pc.C.E)
+		if err != nil {
+			g.errorf("%s: precall %s [%s]: %v", g.name, pc.Callee, pc.C.Label, err)
+			continue
+		}
+		g.addObl(cur, "precall", "precall:"+shortKey(key)+":"+pc.C.Label, pc.C.Src, g.pos(pos), t, false)
+	}
+}
+
+// callSiteOverride: "callsite callee#k: vfunc(args)" in the caller's contract.
+func (g *gen) callSiteOverride(fr *frame, st *State, key string, instr ssa.Instruction) (*FuncSpec, []Val, *types.Signature, bool) {
+	if len(g.fs.CallSites) == 0 || instr == nil {
+		return nil, nil, nil, false
+	}
+	for _, cs := range g.fs.CallSites {
+		if cs.Callee != key && cs.Callee != shortKey(key) {
+			continue
+		}
+		// ordinal of this call among the calls of the same callee, in source order
+		ord := 0
+		for _, b := range fr.fn.Blocks {
+			for _, in := range b.Instrs {
+				ci, ok := in.(ssa.CallInstruction)
+				if !ok || in == instr {
+					continue
+				}
+				k2 := ""
+				if ci.Common().IsInvoke() {
+					k2 = methodKey(ci.Common().Method)
+				} else if sc := ci.Common().StaticCallee(); sc != nil {
+					k2 = funcKey(sc)
+				}
+				if k2 == key && in.Pos() < instr.Pos() {
+					ord++
+				}
+			}
+		}
+		if ord != cs.K {
+			continue
+		}
+		vfs := g.P.spec.Funcs[g.fs.PkgPath+"."+cs.Fn]
+		if vfs == nil || !vfs.Virtual {
+			g.errorf("%s: callsite %s: no virtual contract %s", g.name, cs.Src, cs.Fn)
+			return nil, nil, nil, false
+		}
+		e := g.topEnv(st, &State{m: map[string]string{}}, nil)
+		for k, v := range g.localEnvAt(fr, instr.Block(), instrIndexOf(instr.Block(), instr), st) {
+			if _, bound := e.vars[k]; !bound {
+				e.vars[k] = v
+			}
+		}
+		var args []Val
+		var params []*types.Var
+		for i, a := range cs.Args {
+			v, xt, err := e.tr(a)
+			if err != nil {
+				g.errorf("%s: callsite %s: %v", g.name, cs.Src, err)
+				return nil, nil, nil, false
+			}
+			args = append(args, v)
+			pt := xt.T
+			if i < len(vfs.Params) {
+				if pxt, err := g.resolveType(vfs.Params[i].Type, vfs.PkgPath, vfs.Imports); err == nil && pxt.T != nil {
+					pt = pxt.T
+				}
+			}
+			params = append(params, types.NewVar(0, nil, fmt.Sprintf("a%d", i), pt))
+		}
+		var results []*types.Var
+		for i, r := range vfs.Results {
+			rxt, err := g.resolveType(r.Type, vfs.PkgPath, vfs.Imports)
+			if err != nil || rxt.T == nil {
+				g.errorf("%s: callsite %s: result type: %v", g.name, cs.Src, err)
+				return nil, nil, nil, false
+			}
+			results = append(results, types.NewVar(0, nil, fmt.Sprintf("r%d", i), rxt.T))
+		}
+		sig := types.NewSignatureType(nil, nil, nil, types.NewTuple(params...), types.NewTuple(results...), false)
+		return vfs, args, sig, true
+	}
+	return nil, nil, nil, false
+}
+
+func (g *gen) cellsImmutable(el types.Type) bool {
+	for _, ic := range g.P.spec.ImmutableCells {
+		if name, _, ok := g.cellsVar(ic.Loc, ic.PkgPath, ic.Imports); ok && name == cellMapName(el) {
+			return true
+		}
+	}
+	return false
 }
